@@ -26,6 +26,17 @@ class PushedAuthorization(Authorization):
         self.post_parse_request.append(self._post_parse_request)
         self.ttl = kwargs.get("ttl", 3600)
 
+    def _do_request_uri(self, request, client_id, context, **kwargs):
+        # RFC 9126: a pushed authorization request must not itself carry a request_uri; resolving it
+        # here would let any client consume (and re-push with a new lifetime) another pushed request.
+        if request.get("request_uri"):
+            return self.authentication_error_response(
+                request,
+                error="invalid_request",
+                error_description="request_uri not allowed in a pushed authorization request",
+            )
+        return request
+
     def process_request(self, request: Optional[Union[Message, str]] = None, **kwargs):
         """
         Store the request and return a URI.
